@@ -135,16 +135,19 @@ Example C17_matching_custom_is_visible :
   parse_custom (fun _ => None) rules classes acts preds fuel0 all_on in_E5 = r0.
 Proof. vm_compute. repeat split; reflexivity. Qed.
 
-(* the recorded finding (known_findings.json: custom-dice-zero-width-inside-lookahead), on the model: "a custom
-   syntax that matches at the start of an operand is consumed" is FALSE inside a syntactic predicate — the consuming
-   action is skipped there, the custom alternative has zero width, so "(E5)" is rejected although the matcher matches
-   "E5" at offset 1 and "E5" alone is accepted.  Go behaves the same (lib/c17.py, K1 with custom matchers). *)
+(* Inside a syntactic predicate the grammar's actions are skipped — ConsumeCustomDice included.  Before the repair
+   recorded in known_findings.json (fixed: custom-dice-zero-width-inside-lookahead) the custom alternative therefore
+   had zero width in every look-ahead and "(E5)" was rejected although the matcher matches "E5" at offset 1.  Since the
+   repair PrepareCustomDice itself advances in skip mode (Model/Peg.v run_pred PCustomP); on the regenerated grammar
+   the parenthesised operand is accepted, consumed whole, and dice.custom (opcode 56) is emitted exactly as for the
+   bare operand. *)
 Definition cm_at1 (o : N) : option N := if o =? 1 then Some 2 else None.
 Definition in_pE5 : list N := [40; 69; 53; 41].
-Theorem C17_custom_inside_lookahead_refuted :
+Theorem C17_custom_inside_lookahead_consumed :
   exists (cm : N -> option N) (bytes : list N),
     cm 1 = Some 2 /\ bytes = in_pE5 /\
-    (let r := parse_custom cm rules classes acts preds fuel0 all_on bytes in r_ok r && (r_errs r =? 0) = false) /\
+    (let r := parse_custom cm rules classes acts preds fuel0 all_on bytes in
+     r_ok r && (r_errs r =? 0) = true /\ r_off r = 4 /\ mem_N 56 (r_emitted r) = true) /\
     (let r := parse_custom (fun o => cm (o + 1)) rules classes acts preds fuel0 all_on [69; 53] in
      r_ok r && (r_errs r =? 0) = true /\ r_off r = 2).
 Proof.
@@ -172,4 +175,4 @@ Print Assumptions C17_handler_result_used_by_copy.
 Print Assumptions C17_identity_hooks_transparent.
 Print Assumptions C17_identity_hooks_transparent_value.
 Print Assumptions C17_identity_rewriters_transparent.
-Print Assumptions C17_custom_inside_lookahead_refuted.
+Print Assumptions C17_custom_inside_lookahead_consumed.
